@@ -100,7 +100,7 @@ class PoolGen:
             return k
         # a host identity needs a connection no other host identity registered on
         for c in list(self.open):
-            if c not in self.used_by_host.values() and c not in self.home.values():
+            if c not in self.used_by_host and c not in self.home.values():      # (a connection a host ever registered on stays that host's)
                 self.home[node] = c
                 return c
         k = self.open_conn()
@@ -131,10 +131,14 @@ class PoolGen:
             owner = self.used_by_host.get(k)
             if owner not in (None, node):
                 k = self.conn_for(node, True)
+                if self.used_by_host.get(k) not in (None, node):
+                    return          # no connection of its own to be had: one host identity per connection (how agents behave)
             self.used_by_host[k] = node
         uri = "" if r.random() < 0.6 else "enode://{%s}@10.9.0.%d:30303" % (node, r.randint(1, 9))
         op = {"op": "Connect", "conn": k, "full": full, "kind": r.choice(["geth", "geth", "parity", ""]),
-              "payout": r.choice(["", "", "a1", "a2"]), "uri": uri}
+              "payout": r.choice(["", "", "a1", "a2"]), "uri": uri,
+              "ver": r.choice(["v", "Geth/v1.8.21-stable-9dc5d1a9/linux-amd64/go1.11.4", "Parity-Ethereum//v2.2.7-stable/x86_64-linux-gnu/rustc1.31.1",
+                               "pantheon/1.0.2", "Nethermind/v1.2"])}
         self.emit(self.signed(op, node, alter))
         if alter is None:
             self.connected.add(node)
@@ -369,12 +373,18 @@ class PoolGen:
             self.peer(n)
         elif kind == "reconnect":
             n = r.choice(NODES)
-            self.connect(n, fresh=r.random() < 0.5)
+            if r.random() < 0.2 and not self.race:
+                # the same identity comes back in the other role (a light client that finished syncing registers as a
+                # full node, a host is restarted in light mode): the role is the one of the latest registration
+                self.connect(n, full=not self.full.get(n, n in HOSTS), fresh=True)
+            else:
+                self.connect(n, fresh=r.random() < 0.5)
         elif kind == "close":
             if self.open:
                 k = r.choice(sorted(self.open))
                 self.emit({"op": "Close", "conn": k})
                 del self.open[k]
+                self.used_by_host.pop(k, None)
         elif kind == "connectdrop":
             # a host (re)registers and its connection ends before the pool's reply
             h = r.choice(HOSTS)
@@ -386,6 +396,7 @@ class PoolGen:
             op = {"op": "ConnectDrop", "conn": k, "full": True, "kind": "geth", "payout": "", "uri": ""}
             self.emit(self.signed(op, h))
             self.open.pop(k, None)
+            self.used_by_host.pop(k, None)
         elif kind == "reopen":
             self.open_conn()
         elif kind == "addnode":
